@@ -4,6 +4,8 @@
 #include <osmium/io/detail/input_format.hpp>
 #include <osmium/io/detail/queue_util.hpp>
 #include <osmium/io/detail/write_thread.hpp>
+#include <osmium/io/writer.hpp>
+#include <osmium/builder/osm_object_builder.hpp>
 #include <osmium/io/compression.hpp>
 #include <new>
 #include <cstring>
@@ -121,5 +123,59 @@ ENTRY unsigned verif_write_thread(unsigned pop_throw_at, unsigned end_at, unsign
         wt->m_compressor.reset();
     }
     tail[0] = notification ? 1 : 0; tail[1] = queue.in_use() ? 0 : 1;
+    return g_n;
+}
+
+// ---------------------------------------------------------------- C08: the producer side of the writer (Writer) as a state machine
+// partially constructed Writer with a mock output format: 'H' write_header, 'b' + number of nodes for every write_buffer (the call number throw_at
+// throws), 'w' write_end; the output queue operations are the recorders above ('X' exception, 'E' end-of-data marker, 'D' data).
+// ops: 0 operator()(item), 1 flush(), 2 operator()(Buffer&&) with one node, 3 set_buffer_size(alt), 4 close().  Nodes get the ids 1, 2, 3, ...
+// res[k]: 0 normal return, 1 io_error, 2 other exception.  ids seen by write_buffer are appended to seen[]
+static unsigned g_wb_calls, g_wb_throw_at; static long* g_seen; static unsigned g_nseen, g_seencap;
+struct MockOutput final : OutputFormat {
+    using OutputFormat::OutputFormat;
+    void write_header(const osmium::io::Header&) override { rec('H'); }
+    void write_buffer(osmium::memory::Buffer&& buffer) override {
+        unsigned n = 0;
+        for (const auto& node : buffer.select<osmium::Node>()) { if (g_nseen < g_seencap) g_seen[g_nseen] = node.id(); ++g_nseen; ++n; }
+        rec('b'); rec(static_cast<unsigned char>('0' + n));
+        if (g_wb_calls++ == g_wb_throw_at) throw std::runtime_error{"encoder failed"};
+    }
+    void write_end() override { rec('w'); }
+};
+ENTRY unsigned verif_writer_states(const unsigned char* ops, unsigned nops, unsigned buffer_size, unsigned alt_size, unsigned throw_at, int* res, long* seen, unsigned seencap, unsigned* nseen,
+                                   unsigned char* out, unsigned cap, int* status) {
+    g_rec = out; g_n = 0; g_cap = cap; g_wb_calls = 0; g_wb_throw_at = throw_at; g_seen = seen; g_nseen = 0; g_seencap = seencap;
+    struct Raw { alignas(osmium::io::Writer) unsigned char mem[sizeof(osmium::io::Writer)]; } raw; std::memset(raw.mem, 0, sizeof(raw.mem));
+    auto* w = reinterpret_cast<osmium::io::Writer*>(raw.mem);
+    static unsigned char dummy_pool[64];
+    new (&w->m_output) std::unique_ptr<OutputFormat>{new MockOutput{*reinterpret_cast<osmium::thread::Pool*>(dummy_pool), w->m_output_queue}};
+    new (&w->m_buffer) osmium::memory::Buffer{};
+    new (&w->m_header) osmium::io::Header{};
+    w->m_buffer_size = buffer_size;
+    w->m_status = osmium::io::Writer::status::okay;
+    long id = 0;
+    for (unsigned k = 0; k < nops; ++k) {
+        try {
+            switch (ops[k]) {
+                case 0: {
+                    osmium::memory::Buffer tmp{128, osmium::memory::Buffer::auto_grow::no};
+                    { osmium::builder::NodeBuilder nb{tmp}; nb.set_id(++id); nb.set_user(""); }
+                    tmp.commit();
+                    (*w)(tmp.get<osmium::Node>(0)); break; }
+                case 1: w->flush(); break;
+                case 2: {
+                    osmium::memory::Buffer tmp{128, osmium::memory::Buffer::auto_grow::no};
+                    { osmium::builder::NodeBuilder nb{tmp}; nb.set_id(++id); nb.set_user(""); }
+                    tmp.commit();
+                    (*w)(std::move(tmp)); break; }
+                case 3: w->set_buffer_size(alt_size); break;
+                default: (void)w->close(); break;
+            }
+            res[k] = 0;
+        } catch (const osmium::io_error&) { res[k] = 1; } catch (...) { res[k] = 2; }
+    }
+    *status = static_cast<int>(w->m_status); *nseen = g_nseen;
+    w->m_output.reset(); w->m_buffer = osmium::memory::Buffer{}; w->m_header.~Header();
     return g_n;
 }
